@@ -148,13 +148,34 @@ func C14(c *core.Ctx) {
 		"and '_'. " + engineAText +
 		"Collision families: sibling properties, and definitions referring to each other, are generated with string-equality forking switched ON, so every coincidence of synthesised identifiers (also with a " +
 		"goJSONSchema.identifier override) is a world of its own; atoms a world equates share one placeholder, and the emitted file must still type-check (distinct field names, distinct type names) and bind " +
-		"every field's tags to its own raw name (A-TAG). Not decided: file-name derived root names beyond filepath.Base + extension trimming (C12)."
+		"every field's tags to its own raw name (A-TAG). Reserved names: schema names equal to identifiers the emitted code uses for itself (Plain, raw, value, AdditionalProperties) as titles, definitions and " +
+		"properties, next to additionalProperties: the file type-checks, tags bind, and reflect.TypeOf(T{}) in the additional-properties block names the shadow type of the decoded value (A-SHADOW). Not decided: file-name derived root names beyond filepath.Base + extension trimming (C12)."
 	c.Exhaustive = true
 	skel.DepsDir = filepath.Join(c.VerifDir, "checker", "testdata", "emitdeps")
 	ruleIdent(c)
 	rules := ruleSet("A-TYP", "A-TAG", "A-MAP")
 	for _, mb := range collisionMembers() {
 		runCollisionMember(c, mb, rules, 4096)
+	}
+	// names the emitted code uses for itself (the shadow type Plain, the raw map, the value parameter, the collector field) met as schema
+	// names: the file still type-checks, every key is bound to its own field, and the keys that count as additional are enumerated from
+	// the shadow type of the decoded value (A-SHADOW)
+	for _, mb := range reservedNameMembers(gen.DefaultConfig()) {
+		runMember(c, mb, ruleSet("A-TYP", "A-TAG", "A-SHADOW"), 64, func(w *fam.World, fm *fam.FileModel) []fam.Issue {
+			var keep []fam.Issue
+			keep = append(keep, w.TypIssues(c.Prog.Repo)...)
+			for _, is := range fam.MethodIssues(fm) {
+				if is.Rule == "A-SHADOW" {
+					keep = append(keep, is)
+				}
+			}
+			for _, is := range checkRoot(w, fm) {
+				if is.Rule == "A-TAG" {
+					keep = append(keep, is)
+				}
+			}
+			return keep
+		})
 	}
 	// root type names come from the file name / title / mapping, never from state keyed by something else: two files of one run get two root types
 	ruleMultiSel(c, ruleSet("A-ROUTE", "A-TYP", "A-MAP"), 3, "two files with the same $id", "two files with the same base name")
